@@ -22,7 +22,8 @@ Hours == {{2}, {1, 3}, 0..23} \cup (IF Big THEN {{0}, {23}} ELSE {})
 Days == {<<1..31, 0..6, "and">>, <<{10}, 0..6, "and">>, <<{11}, {0}, "or">>, <<1..31, {1}, "and">>}
         \cup (IF Big THEN {<<{9, 11}, {3}, "or">>, <<{31}, 0..6, "and">>, <<{10}, {1}, "and">>} ELSE {})
 
-B == DaysFromCivil(2024, 3, 10)        \* a Sunday
+ED == DaysFromCivil(2023, 1, 1)        \* the epoch of the instants below (a run's epoch is 1 January of some year)
+B == DaysFromCivil(2024, 3, 10) - ED   \* 2024-03-10, a Sunday, relative to the epoch
 Z(x, o1, o2) == <<[from |-> x - 3 * Day, to |-> x, off |-> o1], [from |-> x, to |-> x + 4 * Day, off |-> o2]>>
 Zones == { Z(B * Day + 7200 + 18000, -18000, -14400),   \* 02:00 -> 03:00
            Z(B * Day + 7200 + 14400, -14400, -18000),   \* 02:00 -> 01:00
@@ -48,13 +49,18 @@ Spec == Init /\ [][Next]_vars
 
 (* a long window (day roll-over, the skipped day) for the minute-sparse schedules, a short one otherwise *)
 W == IF S[1] = {0} /\ S[2] = {0} THEN LongWindow ELSE Window
-Agree == stage = 2 => NextUpTo(S, rule, zt, t, t + W) = BruteNext(S, rule, zt, t, t + W)
+Agree == stage = 2 => NextUpTo(S, rule, ED, zt, t, t + W) = BruteNext(S, rule, ED, zt, t, t + W)
 
 (* calendar round trip on the days the zones touch, and two anchors *)
-CalendarOK == /\ \A z \in (B - 400)..(B + 400) : LET c == Civil(z) IN DaysFromCivil(c.y, c.m, c.d) = z /\ c.d >= 1 /\ c.d <= MonthLen(c.y, c.m)
+CalendarOK == /\ \A z \in (ED + B - 400)..(ED + B + 400) \cup (36000..37300) \cup (72600..73800) : LET c == Civil(z) IN DaysFromCivil(c.y, c.m, c.d) = z /\ c.d >= 1 /\ c.d <= MonthLen(c.y, c.m)
               /\ Civil(0) = [y |-> 2000, m |-> 1, d |-> 1] /\ DayOfWeek(0) = 6
               /\ DaysFromCivil(2024, 2, 29) + 1 = DaysFromCivil(2024, 3, 1)
               /\ DaysFromCivil(2038, 1, 19) = 13898 /\ DayOfWeek(13898) = 2
               /\ DaysFromCivil(2012, 2, 29) = 4442
+              /\ ~IsLeap(2100) /\ ~IsLeap(2200) /\ IsLeap(2096) /\ IsLeap(2104) /\ IsLeap(2000)
+              /\ DaysFromCivil(2100, 3, 1) = DaysFromCivil(2100, 2, 28) + 1
+              /\ DaysFromCivil(2100, 1, 1) = 36525 /\ DayOfWeek(36525) = 5      \* a Friday
+              /\ DaysFromCivil(2200, 1, 1) = 73049 /\ DayOfWeek(73049) = 3      \* a Wednesday
+              /\ FiveYearsOn(DaysFromCivil(2099, 1, 1), 151 * Day + 5) = (DaysFromCivil(2104, 6, 1) - DaysFromCivil(2099, 1, 1)) * Day + 5
 ASSUME CalendarOK
 =============================================================================
